@@ -147,7 +147,7 @@ func checkC11(p *load.Program, r *kit.Report) {
 	r.Rule("KEY-AGREE", "every storage key written has a reader with the same key shape (format and argument kinds)", 4)
 	r.Rule("CONST-TABLE", "headerDataSerializeSize equals 80 (wire block header) + 32 (work) and is the record size used by getData, loadHistoricalHashHeights and saveMainBranch's byte offset", 2)
 	r.Rule("HEIGHT-LABEL", "labels written while loading (LoadBranch, Reload, loadBranchHashHeights, loadHistoricalHashHeights) equal positional heights", 4)
-	r.Rule("ORDER", "load selects the tip from the branch list in stored order, before re-sorting it for linking (ties of accumulated work are broken by position)", 1)
+	r.Rule("ORDER", "load selects the tip from the branch list in stored order, before re-sorting it for linking (ties of accumulated work are broken by position); the hashes of a loaded branch enter the long-lived height map only when the branch is kept", 2)
 	r.Rule("COVER-ALL", "loadHistoricalHashHeights starts at the file that holds the height right below the main branch's lowest in-memory height (every best-chain hash below the in-memory part gets its height back)", 1)
 	r.Rule("MUST-PASS", "saveInvalidHashes writes its key on every successful path (an emptied list replaces the stored one)", 1)
 	r.Rule("MAIN-FILE-SHAPE", "saveMainBranch starts in file lowest/headersPerFile at byte (lowest - file·headersPerFile)·recordSize + 1 (version byte), keeps exactly that prefix of the stored file, rolls over to file+1 every headersPerFile heights; readers (C09) use the same constants", 3)
@@ -352,6 +352,25 @@ func checkC11(p *load.Program, r *kit.Report) {
 					if rr.Has(header.Instrs[0]) {
 						badK = "a stored branch can be dropped while loading although its tip is not below the retained depth (" + rr.PathTo(header.Instrs[0], p.Pos) + "): its headers become unknown and a submission that extends it is refused"
 					}
+					// the long-lived height map gets the hashes of a loaded branch only when the branch
+					// is kept: a branch that load drops (deeper than the retained depth) must stay
+					// unknown, or its headers are answered as pruned best-chain history
+					badH := ""
+					regs := kit.CallsTo(f, H+".Repository.loadBranchHashHeights")
+					if len(regs) == 0 {
+						badH = "load does not register the hashes of the loaded branches"
+					}
+					pre := kit.Reach(f, starts, kit.Opts{StopAt: kit.InstrSet(keep)})
+					for _, c := range regs {
+						if !pre.Has(c) {
+							continue // after the branch was appended to the kept list
+						}
+						post := kit.Reach(f, kit.After(c.(ssa.Instruction)), kit.Opts{StopAt: kit.InstrSet(keep)})
+						if post.Has(header.Instrs[0]) {
+							badH = "the hashes of a loaded branch are registered in the long-lived height map before load decides whether to keep it (" + post.PathTo(header.Instrs[0], p.Pos) + "): the headers of a dropped side branch stay known, at their heights, as if they were pruned best-chain history"
+						}
+					}
+					r.Check(badH == "", "ORDER", "load/heights-only-for-kept-branches", posOf(p, f.Blocks[0].Instrs[0]), "loadBranchHashHeights runs only for a branch that is appended to the kept list", badH)
 				}
 			}
 			r.Check(badK == "", "COVER-ALL", "load/keeps-branches-within-depth", posOf(p, f.Blocks[0].Instrs[0]), "a loaded branch is skipped only behind branch.Height() < pruneHeight", badK)
@@ -557,7 +576,9 @@ func checkBranchSave(p *load.Program, r *kit.Report) {
 
 func checkC12(p *load.Program, r *kit.Report) {
 	importRules(p, r, "C11", "a crash image is loadable only if every file that was completely written has the layout Load expects, and Save writes the main files before the branch files and index that depend on them", 3,
-		func(o *kit.Obligation) bool { return o.Rule == "MAIN-FILE-SHAPE" || strings.HasPrefix(o.Construct, "Save/order") }, "MAIN-FILE-SHAPE", "MERGE-SHAPE")
+		func(o *kit.Obligation) bool {
+			return o.Rule == "MAIN-FILE-SHAPE" || strings.HasPrefix(o.Construct, "Save/order") || strings.HasPrefix(o.Construct, "Branch.Save")
+		}, "MAIN-FILE-SHAPE", "MERGE-SHAPE")
 	importRules(p, r, "C01", "after Load the reported tip must be the heaviest of the branches that could be read", 1,
 		func(o *kit.Obligation) bool {
 			return strings.Contains(o.Construct, "Repository.load") || strings.Contains(o.Construct, "Repository.migrate")
@@ -565,7 +586,7 @@ func checkC12(p *load.Program, r *kit.Report) {
 	r.NotDecided = "the property proper — enumeration of write prefixes and what Load reconstructs from each (crash points are runtime states); per-key atomicity is the property's own assumption. Decided are the ordering and tolerance facts without which some prefix is unloadable."
 	r.Rule("ORDER", "in saveBranches the index write happens after every branch file it names was saved (dominated by the loop exit; no Save reachable after the index write; a Save error returns before the index is written)", 2)
 	r.Rule("WRITERS", "the only storage removal in the headers package is saveMainBranch's removal of the file after the last main-chain file; no branch file is removed; clean never writes the branch index", 2)
-	r.Rule("TOLERATE", "load skips a branch that cannot be linked (no error return on the Link failure edge) and re-selects the tip with Longest() from what it read", 2)
+	r.Rule("TOLERATE", "load skips a branch that cannot be linked (no error return on the Link failure edge) and re-selects the tip with Longest() from what it read; migrate ends its scan on an unreadable old-format file instead of failing", 3)
 
 	if f := fn(p, r, "ORDER", H, "Repository.saveBranches"); f != nil {
 		ws := storageCalls(f, "Write")
@@ -679,6 +700,37 @@ func checkC12(p *load.Program, r *kit.Report) {
 			}
 		}
 		r.Check(okL, "TOLERATE", "load/recompute-longest", posOf(p, f.Blocks[0].Instrs[0]), "tip recomputed with Longest() over the loaded branches", "load does not recompute the most-work branch from what it read")
+	}
+	// migrate (Load's path when there is no branch index yet — e.g. after a crash during the very
+	// first Save, which writes the version-1 main file before the index): a header file that is not
+	// in the old format ends the scan, it does not make Load fail for ever
+	if f := fn(p, r, "TOLERATE", H, "Repository.migrate"); f != nil {
+		gets := kit.CallsTo(f, H+".getOldData")
+		bad := ""
+		if len(gets) != 1 {
+			bad = fmt.Sprintf("expected one getOldData call, found %d", len(gets))
+		} else {
+			get := gets[0].(*ssa.Call)
+			eg := errNilGuards(f, get)
+			if len(eg) == 0 {
+				bad = "the result of getOldData is not error-checked"
+			}
+			for _, e := range edgesOf(eg, false) {
+				reach := kit.Reach(f, []kit.Pt{kit.EdgeStart(e)}, kit.Opts{})
+				for _, ret := range kit.Returns(f) {
+					if !reach.Has(ret) || len(ret.Results) == 0 {
+						continue
+					}
+					if kit.DependsOn(ret.Results[len(ret.Results)-1], func(v ssa.Value) bool {
+						ex, ok := v.(*ssa.Extract)
+						return ok && ex.Tuple == ssa.Value(get) && ex.Index == 1
+					}) {
+						bad = "an unreadable old-format file makes migrate — and with it Load — fail (" + retLabel(ret) + " at " + posOf(p, ret) + "): a crash during the first Save leaves a version-1 main file without an index, and every later Load then fails instead of starting from genesis"
+					}
+				}
+			}
+		}
+		r.Check(bad == "", "TOLERATE", "migrate/old-file-error-ends-scan", posOf(p, f.Blocks[0].Instrs[0]), "a getOldData error ends the scan; it is never returned", bad)
 	}
 }
 
